@@ -29,6 +29,7 @@ type C06Scenario struct {
 	Cfg        CfgSpec
 	Cmds       []Cmd
 	Noise      [][]Noise // Noise[i] happens before command i (and Noise[len] after the last)
+	Host       HostSpec  // the embedding program's custom dice syntax (callbacks that fail, crash or roll)
 	Worlds     int
 }
 
@@ -46,8 +47,16 @@ func c06Gen(seed uint64, tier string) any {
 	g := NewProgGen(r.Fork(), o)
 	sc := &C06Scenario{GlobalSeed: r.U64(), Cfg: cfg, Worlds: 2}
 	n := r.Range(2, 6)
+	if r.Chance(1, 3) {
+		sc.Host = HostSpec{Custom: true, CustomTok: "XX", HandlerPlan: randPlanFaulty(r, 12)}
+	}
 	for i := 0; i < n; i++ {
 		var src string
+		if sc.Host.Custom && r.Chance(1, 2) {
+			src = Pick(r, []string{"XX3 + d100", "d20 + XX1 * 2", "XX2; 3d6", "[XX1, d10, XX2]", "XX4 + XX5 + 2d10", "&cx = XX2 + d6; cx + cx"})
+			sc.Cmds = append(sc.Cmds, Cmd{Kind: "run", Src: src})
+			continue
+		}
 		switch r.Intn(6) {
 		case 0:
 			src = Pick(r, []string{
@@ -98,15 +107,22 @@ type c06World struct {
 	out     []*Outcome
 	seeds   [][]byte
 	attrs   []*ds.ValueMap // deep copies after each command (for resume)
+	fired   map[string]int
+	hcalls  []int          // callback invocations so far, after each command
 	foreign int            // dice drawn for the seeded context from a source that is not its own
 	globalTouched []int    // commands that advanced a package-level generator
 	dice    int
 }
 
 func c06Run(sc *C06Scenario, noisy bool, worldSalt uint64, m *Meter, res *RunResult, wantCopies bool) *c06World {
-	w := &c06World{}
+	w := &c06World{fired: map[string]int{}}
 	ResetGlobals(sc.GlobalSeed ^ worldSalt)
 	vm := sc.Cfg.NewVM()
+	var host *Host
+	if sc.Host.Custom {
+		host = NewHost(sc.Host, m)
+		host.Install(vm)
+	}
 	doNoise := func(ns []Noise) {
 		if !noisy {
 			return
@@ -117,6 +133,9 @@ func c06Run(sc *C06Scenario, noisy bool, worldSalt uint64, m *Meter, res *RunRes
 				c := sc.Cfg
 				c.SeedA, c.SeedB = n.N, n.N^0x55
 				o := c.NewVM()
+				if sc.Host.Custom {
+					NewHost(sc.Host, m).Install(o)
+				}
 				m.Reset()
 				DoCmd(o, Cmd{Kind: "run", Src: n.Src})
 			case "uvm":
@@ -173,6 +192,13 @@ func c06Run(sc *C06Scenario, noisy bool, worldSalt uint64, m *Meter, res *RunRes
 		w.out = append(w.out, o)
 		sd, _ := vm.GetCurSeed()
 		w.seeds = append(w.seeds, sd)
+		if host != nil {
+			w.hcalls = append(w.hcalls, host.handlerN)
+			for k, v := range host.Fired {
+				res.FaultN(k, v-w.fired[k])
+				w.fired[k] = v
+			}
+		}
 		if wantCopies {
 			w.attrs = append(w.attrs, ds.VerifDeepCopyMap(vm.Attrs))
 		}
@@ -228,6 +254,11 @@ func c06Exec(raw json.RawMessage, res *RunResult) {
 		ResetGlobals(sc.GlobalSeed ^ 0xABCDEF ^ uint64(p))
 		b := sc.Cfg.NewVMFromSeed(quiet.seeds[p])
 		b.Attrs = ds.VerifDeepCopyMap(quiet.attrs[p])
+		if sc.Host.Custom {
+			hb := NewHost(sc.Host, m)
+			hb.handlerN = quiet.hcalls[p] // the embedding program resumes its own behaviour where it was
+			hb.Install(b)
+		}
 		res.Fault("resume_from_captured_generator")
 		for i := p + 1; i < len(sc.Cmds); i++ {
 			m.Reset()
